@@ -4,11 +4,13 @@
 (* (any source kind, any chunking, faults, configuration flips, skip       *)
 (* calls) are accepted iff they are behaviours of XmlRead.  One record per *)
 (* public call:                                                            *)
-(*   Reset {in, cfg, enc}      new reader over raw input `in`              *)
+(*   Reset {in, cfg, enc[, first]]  new reader over raw input `in`; first = *)
+(*                             size of the first piece of a chunked source *)
 (*   Read  {k,e,b,n,x,p,q[,d]} read_event*; d = bytes delivered when an    *)
 (*                             injected I/O error fired (k=Err,e=Io)       *)
 (*   Cfg   {cfg}               config_mut() assignment                     *)
 (*   Rte   {k,e,s,b,p,q,c,txt} read_to_end* / read_text on the last Start  *)
+(*   Raw   {n,b,p,q}           Reader::stream(): n bytes asked, b received *)
 (* Fields tagged P (spec/Bytes.tla) are bound with equality, fields tagged *)
 (* I are left free.  A deviation of a known finding may explain a step;    *)
 (* its use is reported with a DEVUSED line.                                *)
@@ -30,11 +32,18 @@ ToBits(c) == <<IF c.aue THEN 1 ELSE 0, IF c.cc THEN 1 ELSE 0, IF c.cen THEN 1 EL
 TInit == /\ l = 1 /\ inp = <<>> /\ bom = 0 /\ cfg = DefaultCfg /\ st = InitSt
          /\ lastStart = [lo |-> 0, hi |-> 0] /\ io = FALSE
 
+DevSets == {{}} \cup {{d} : d \in Deviations}
+
 IsRec(t) == l <= Len(Rec) /\ Rec[l].t = t /\ l' = l + 1
 
+FirstOf(rec) == IF "first" \in DOMAIN rec THEN rec.first ELSE Len(rec.in) + 4
 TReset == /\ IsRec("Reset")
-          /\ bom' = BomLen(Rec[l].in, Rec[l].enc = 1)
-          /\ inp' = StripBom(Rec[l].in, Rec[l].enc = 1)
+          /\ \E dev \in DevSets :
+               LET n == SniffLen(Rec[l].in, FirstOf(Rec[l]), Rec[l].enc = 1, dev) IN
+               /\ dev # {} => n # SniffLen(Rec[l].in, FirstOf(Rec[l]), Rec[l].enc = 1, {})
+               /\ dev # {} => PrintT(<<"DEVUSED", ToJson(dev)>>)
+               /\ bom' = n
+               /\ inp' = SubSeq(Rec[l].in, n + 1, Len(Rec[l].in))
           /\ cfg' = OfBits(Rec[l].cfg)
           /\ st' = InitSt /\ lastStart' = [lo |-> 0, hi |-> 0] /\ io' = FALSE
 
@@ -64,8 +73,6 @@ MatchRead(rec, r) ==
        ELSE /\ rec.b = Slice(inp, r.ev.lo, r.ev.hi)
             /\ rec.n = r.ev.n
             /\ rec.p = BufferPosition(r.st)
-
-DevSets == {{}} \cup {{d} : d \in Deviations}
 
 TRead == /\ IsRec("Read")
          /\ ~io
@@ -116,7 +123,19 @@ TRte == /\ IsRec("Rte")
              /\ st' = r.st
         /\ UNCHANGED <<inp, bom, cfg, lastStart, io>>
 
-TNext == TReset \/ TCfg \/ TRead \/ TReadIo \/ TReadAfterIo \/ TRte
+\* C08: raw bytes through Reader::stream() are the bytes at the reader's offset, the position moves by exactly
+\* their number, fewer than asked only at the end of the input; the parse state is untouched
+TRaw == /\ IsRec("Raw")
+        /\ ~io
+        /\ LET k == Len(Rec[l].b) IN
+           /\ st.off + k <= Len(inp)
+           /\ Rec[l].b = Slice(inp, st.off, st.off + k)
+           /\ (k < Rec[l].n => st.off + k = Len(inp))
+           /\ st' = [st EXCEPT !.off = st.off + k]
+           /\ Rec[l].p = BufferPosition(st')
+        /\ UNCHANGED <<inp, bom, cfg, lastStart, io>>
+
+TNext == TReset \/ TCfg \/ TRead \/ TReadIo \/ TReadAfterIo \/ TRte \/ TRaw
 TSpec == TInit /\ [][TNext]_tvars
 
 \* invariants evaluated at every step of every validated trace
